@@ -560,7 +560,9 @@ def check_enum(cx, fn, rep, facts):
         return
     # residuals of the "nothing to print and no name" refusals are rejected inputs, not extra conditions
     by_shape = variant_arms(S, 'SUM-DEBUG', b, marker_of_pat(e['arms'][0]['pat']),
-                            allow=lambda x: x[0] == 'nand' or (x[0] == 'some' and x[2] is True and isinstance(x[1], tuple) and x[1][0] == 'iflet'))
+                            allow=lambda x: x[0] == 'nand' or (x[0] == 'some' and x[2] is True and isinstance(x[1], tuple) and x[1][0] == 'iflet')
+                            # the same residual spelled `let name = match name { Some(n) => n, None => return Err(..) };`
+                            or (x[0] == 'survive' and isinstance(x[1], tuple) and x[1][0] == 'iflet' and len(x[2]) == 1 and x[2][0].startswith('Some(')))
     if by_shape is None:
         return
     for sh, lst in by_shape.items():
@@ -588,8 +590,17 @@ def check_arm(S, a, V, sh):
             S.bad('SUM-DEBUG', 'arm-Unit-body', 'a unit variant is not rendered with `f.write_str(NAME)`', a)
             return False
         nt = S.hole_term(a, marker_of_expr(e['args'][0]))
+        unwrapped = False
+        if isinstance(nt, tuple) and nt and nt[0] == 'some_of' and len(nt) == 2:
+            # `let name = match name { Some(n) => n, None => return Err(..) };`: the hole is the payload, present by construction
+            nt = nt[1]
+            unwrapped = True
+        elif isinstance(nt, tuple) and len(nt) == 5 and nt[0] == 'iflet' and str(nt[1]).startswith('Some(') and nt[3] == ('some_of', nt[2]) and nt[4] == ('never',):
+            nt = nt[2]
+            unwrapped = True
         r = check_name_string(S, nt, V)
-        proven = any(x[0] == 'some' and x[2] is True and x[1] == nt for x in atoms)
+        proven = any(x[0] == 'some' and x[2] is True and x[1] == nt for x in atoms) \
+            or (unwrapped and any(x[0] == 'survive' and x[1] == nt and len(x[2]) == 1 and x[2][0].startswith('Some(') for x in atoms))
         if r is not True or not proven:
             S.bad('SUM-DEBUG', 'arm-Unit-name', (r if r is not True else 'the name may be absent here (refusal does not dominate)'), a)
             return False
@@ -696,6 +707,9 @@ def run(cx, tier='quick'):
     check_type_name_fn(cx, rep)
     from .c13 import include_own_scanners
     include_own_scanners(cx, facts, rep, ['::debug::'])
+    # a variant with nothing to show is displayed as its effective name: the three variant kinds must agree on when that name is missing
+    from .c13_sel import check_need_name_siblings
+    check_need_name_siblings(cx, facts, rep)
     from .helpers import check_path_to_string, check_ident_or_index
     check_path_to_string(cx, rep)
     check_ident_or_index(cx, rep)
